@@ -145,8 +145,10 @@ pub fn canon(i: Id) -> (bool, u32) {
         True => (false, cmk(CNode::Leaf("true".into()))),
         False => (false, cmk(CNode::Leaf("false".into()))),
         Add(..) | Sub(..) => {
+            // a sum and its negation share one canonical node: the sign is factored out
             let mut ts = Vec::new(); collect_sum(i, false, &mut ts); ts.sort();
-            (false, cmk(CNode::Sum(ts)))
+            let mut ng: Vec<(bool, u32)> = ts.iter().map(|(n, c)| (!*n, *c)).collect(); ng.sort();
+            if ng < ts { (true, cmk(CNode::Sum(ng))) } else { (false, cmk(CNode::Sum(ts))) }
         }
         Neg(a) => { let (n, c) = canon(a); (!n, c) }
         Mul(..) | Div(..) => {
@@ -173,8 +175,15 @@ pub fn canon(i: Id) -> (bool, u32) {
             (false, cmk(CNode::App("sqrt", vec![(false, sum)])))
         }
         Ite(c, a, b) => un("ite", &[c, a, b]),
-        Lt(a, b) => un("lt", &[a, b]), Le(a, b) => un("le", &[a, b]),
-        Eq(a, b) => { let mut xs = vec![canon(a), canon(b)]; xs.sort(); (false, cmk(CNode::App("eq", xs))) }
+        // comparisons: a < b  <=>  0 < b - a, with the difference in canonical (flattened, sorted) form
+        Lt(a, b) => { let mut ts = Vec::new(); collect_sum(b, false, &mut ts); collect_sum(a, true, &mut ts); ts.sort(); (false, cmk(CNode::App("pos", vec![(false, cmk(CNode::Sum(ts)))]))) }
+        Le(a, b) => { let mut ts = Vec::new(); collect_sum(b, false, &mut ts); collect_sum(a, true, &mut ts); ts.sort(); (false, cmk(CNode::App("nonneg", vec![(false, cmk(CNode::Sum(ts)))]))) }
+        Eq(a, b) => {
+            let mut ts = Vec::new(); collect_sum(b, false, &mut ts); collect_sum(a, true, &mut ts); ts.sort();
+            let mut ng: Vec<(bool, u32)> = ts.iter().map(|(n, c)| (!*n, *c)).collect(); ng.sort();
+            let pick = if ng < ts { ng } else { ts };
+            (false, cmk(CNode::App("zero", vec![(false, cmk(CNode::Sum(pick)))])))
+        }
         And(a, b) => un("and", &[a, b]), Or(a, b) => un("or", &[a, b]), Not(a) => un("not", &[a]),
     };
     CANON.with(|c| c.borrow_mut().memo.insert(i, r));
